@@ -114,6 +114,10 @@ def sample_points(y, cap):
 
 def run_k(ctx, kres):
     viols = []
+    # is locking really ON when it was asked for?  `MutexFactory::enabled` after every C_Initialize of random sequences of the three flavours (failing ones included) and
+    # C_Finalize, against Shm/Model/MutexLife.lean (`mxTrace`): a C_Initialize that asks for locking after an earlier C_Initialize(NULL) must switch it on again
+    from .. import pure
+    viols += pure.run_group(ctx, kres, "K18-pure-mutex-factory", "mx", 40 if ctx.quick else 600)
     cap = FORCE_CAP_QUICK if ctx.quick else FORCE_CAP_THOROUGH
     scen = gen.thread_scenarios()
     ex = concurrent.futures.ThreadPoolExecutor(core.JOBS)
